@@ -212,6 +212,9 @@ BINARY = [
     ('ne', operator.ne),
     ('getitem', operator.getitem),      # container[key]: proxy placement L = proxied container
     ('in', _contains),                  # item in container: placement R = proxied container
+    # augmented assignment through a name bound to the result (r += x): the same value as on the real thing, and every other
+    # reference to that result still answers for the value the student's code produced
+    ('iadd', operator.iadd), ('isub', operator.isub), ('imul', operator.imul), ('ifloordiv', operator.ifloordiv), ('ior', operator.ior), ('iand', operator.iand),
     ('isinstance-of-type', None),
     ('isinstance-of-class', None),      # isinstance(x, C) where the class C itself is what student code produced (R: C proxied; B: both)
     ('round-n', lambda a, b: round(a, b)),
@@ -385,6 +388,8 @@ def _short(v):
 
 def run(ctx):
     cells(ctx, VALUES, ctx.shard, ctx.nshards)
+    if ctx.shard % 8 == 0:
+        check_results_survive_assertions(ctx, Harness())
 
 
 def cells(ctx, values, shard, nshards, only=None):
@@ -467,6 +472,11 @@ def cells(ctx, values, shard, nshards, only=None):
                     # "membership in the proxied container": the container (right operand) is the proxy
                     placements = [('R', lv, pr), ('B', pl, pr)]
                     ctx.count('cells_outside_statement_skipped', 1)
+                elif oname in ('iadd', 'isub', 'imul', 'ifloordiv', 'ior', 'iand'):
+                    if type(lv) not in (int, float, str, tuple, bool, bytes, frozenset, complex, type(None)):
+                        continue        # (on a mutable left operand the real operation changes the operand itself, for every later cell)
+                    fn = ofn
+                    placements = [('L', pl, rv), ('B', pl, pr)]
                 else:
                     fn = ofn
                     placements = [('L', pl, rv), ('R', lv, pr), ('B', pl, pr)]
@@ -494,6 +504,12 @@ def cells(ctx, values, shard, nshards, only=None):
                     ctx.seen('placements', plc)
                     ctx.count('cells_real_ok' if real[0] == 'ok' else 'cells_real_fails')
                     compare(ctx, key, case, real, prox)
+                    # ---- the results that were operands still are what the student's code produced ----
+                    for side, px, was in (('left', pl, lv), ('right', pr, rv)):
+                        if type(was) in (int, float, str, tuple, bool, bytes, frozenset, complex, type(None), range) and unwrap(px) is not was:
+                            ctx.violation('C16|%s|%s|operand-result-no-longer-holds-its-value' % (oname, plc), dict(case, operand=side),
+                                          'after the operation the %s result holds %s, it held %s' % (side, _short(unwrap(px)), _short(was)))
+                            h.cache.pop((lexpr if side == 'left' else rexpr, how), None)
                     if ctx.evaluations % 4999 == 0:
                         ctx.sample({'case': case, 'real': [real[0], _short(real[1])], 'proxy': [prox[0], _short(unwrap(prox[1]))]})
     ctx.seen('operand_classes', 'see VALUES')
@@ -501,7 +517,35 @@ def cells(ctx, values, shard, nshards, only=None):
         ctx.seen('operand_classes', vt)
 
 
+def check_results_survive_assertions(ctx, h):
+    """a result handed to the instructor's assertions is afterwards still the value the student's code produced (a range is a
+    range, an iterator is that iterator)"""
+    import pedal.assertions.runtime as rt
+    exprs = ['range(0, 6, 2)', 'range(3)', '(1, 2)', "'abc'", '[1, 2, 3]', '{1, 2}', 'iter([1, 2])', 'map(abs, [1, -2])', 'zip([1], [2])', 'reversed([1, 2])', '7']
+    for expr in exprs:
+        for how in ('evaluate', 'call'):
+            try:
+                p = h._make(expr, how)
+            except Exception:
+                continue
+            was = unwrap(p)
+            case = {'kind': 'A', 'value': expr, 'how': how}
+            for aname, args in (('assert_equal', (p, [0, 2, 4])), ('assert_in', (2, p)), ('assert_length_equal', (p, 3)), ('assert_not_equal', (p, 5)), ('assert_is_instance', (p, list))):
+                try:
+                    getattr(rt, aname)(*args)
+                except Exception:
+                    pass
+                ctx.count('results_checked_after_an_assertion')
+                ctx.case('A:%s:%s:%s' % (expr, how, aname))
+                if unwrap(p) is not was:
+                    ctx.violation('C16|result-changed-by-an-assertion|%s|%s' % (aname, type(was).__name__), dict(case, assertion=aname),
+                                  'the result held %s; after %s it holds %s' % (_short(was), aname, _short(unwrap(p))))
+                    break
+
+
 def replay(ctx, case):
+    if case['kind'] == 'A':
+        return check_results_survive_assertions(ctx, Harness())
     if case['kind'] == 'U':
         only = ('U', case['op'], case['value'])
     else:
